@@ -27,6 +27,15 @@ CHECKS["C01"] = dict(
     note="Component cdf/icdf correctness is C05/C08's business; parameters in metocean-plausible sub-ranges; n-D up to 60 (quick) / 200 (thorough) points.",
     design="7/C01",
 )
+CHECKS["C08"] = dict(
+    technique="property-based testing (Hypothesis): differential against a freshly constructed template instance whose parameters come from the harness' own evaluation of the dependence spec",
+    text="Generated (template family x dependent-parameter subset x constructed dependence shapes incl. chained and default-valued signatures x conditioning "
+         "values x quantile levels x seeds). pdf/cdf/icdf of the ConditionalDistribution in the IFORM (vector,vector), ISORM (scalar,scalar) and HDC (vector,scalar / 0-d) "
+         "call forms equal the template built with the reference parameter values; vectorised equals one-at-a-time; fixed parameters are constant in g; seeded samples "
+         "(scalar and vector given) equal the template's. Exploration level.",
+    note="Template methods with constructed parameters are the reference (C05 decides their formulas); tolerance 1e-9 vs reference, 1e-10 vector-vs-scalar.",
+    design="7/C08",
+)
 NOT_YET = {}
 
 def main():
